@@ -85,6 +85,9 @@ impl VxKvvPersister {
     pub fn delete(&self, key: &VxStr) -> (r: Result<(), Error>) ensures r.is_ok() ==> self.kv_deleted(*key) { unimplemented!() }
     pub uninterp spec fn stored(&self, key: VxStr) -> Option<(u64, Vec<u8>)>;
     #[verifier::external_body]
+    pub fn get_version(&self, key: &VxStr) -> (r: Result<Option<u64>, Error>)
+        ensures r.is_ok() ==> r->Ok_0 == (match self.stored(*key) { Some(vv) => Some(vv.0), None => None }) { unimplemented!() }
+    #[verifier::external_body]
     pub fn get(&self, key: &VxStr) -> (r: Result<Option<(u64, Vec<u8>)>, Error>) ensures r.is_ok() ==> r->Ok_0 == self.stored(*key) { unimplemented!() }
     // self.get_prefix(prefix)? with KVV::into_inner applied: (key, value) pairs under the prefix, tombstones included
     pub uninterp spec fn under_prefix(&self, prefix: VxStr) -> Seq<(VxStr, Vec<u8>)>;
